@@ -41,6 +41,7 @@ def gen(rng, tier, i):
     p.file('vspolicy', '\n'.join(vs + ['zz 1']) + '\n')
     p.cycle(connect(0, 0))
     p.cycle(send(0, 'do name u0;uids\r\n'))
+    p.meta['keep_cycles'] = 2      # the model knows the acting user by its tag: a plan without the naming step says nothing
     tags = ['u0']
     nt = 0
     n = rng.randint(3, 25 if tier == 'quick' else 60)
@@ -146,6 +147,7 @@ def check(plan, res):
                     if ans == 'E':
                         stale.add(key); continue
                     model[key] = creation_rules(ck, ans)
+                    stale.discard(key)       # created for good now: an earlier failed attempt no longer matters
                     fname[name] = key
                 if pend['op'] == 'uload' and ok:
                     # the tag names the blueprint itself
@@ -199,7 +201,11 @@ def check(plan, res):
                 last_uids = seen
                 continue
             for t, st in seen.items():
-                if t in stale: model[t] = list(st); stale.discard(t);
+                if t in stale:
+                    # adopt in place: a tag and the blueprint name may share one state
+                    if t in model: model[t][:] = list(st)
+                    else: model[t] = list(st)
+                    stale.discard(t)
                 if st[0] in ('0', ''): bad('state', 'object %s has no uid' % t, 'state/null-uid')
                 exp = model.get(t)
                 if exp is None:
